@@ -60,7 +60,9 @@ def run_case(case):
     enc = str(rng.choice(["shank", "geom"]))
     # free-form fields an experimenter or the acquisition software may leave in the header: they travel through the split and back unchanged
     notes = {"userNotes": str(rng.choice(["", "mouse A12; depth 3.5,4.1 mm", "0.40,0.10,0.02", "0.5,2", "1,2.25,3", "gain=500 ref=ext", "see D:/notes/2024-05-01.txt", "12,13,14"])),
-             "rmt_USERTAG": str(rng.choice(["", "a=b=c", "7", "7.50", "1e-3"]))}
+             "rmt_USERTAG": str(rng.choice(["", "a=b=c", "7", "7.50", "1e-3"])),
+             # small and large numeric scalars (margins in seconds, counters): written back in positional notation, read back as the same numbers
+             "trgTTLMarginS": str(rng.choice(["0.00005", "0.000012", "0.0001", "0.5", "0.00000031"])), "syncSourcePeriod": str(rng.choice(["1", "1.00000012", "123456789.5"]))}
     fs_hdr = float(rng.choice([30000.0, 30000.0, 30000.390639481, 29999.757983, 30000.75]))      # headers carry the probe's calibrated rate
     b, rec = np2.build(rng, d, ns=ns, gain=gain, sites=sites, content=content, encoding=enc, extra_meta=notes, fs=fs_hdr)
     raw = rec.raw
